@@ -15,11 +15,11 @@ import (
 )
 
 type PropConf struct {
-	Packages   []string `json:"packages"`
-	NotDecided []string `json:"not_decided"`
-	Assumptions []string `json:"assumptions"`
-	Standins   []Standin `json:"bounded_standins"`
-	Mutants    []string `json:"mutants"`
+	Packages    []string  `json:"packages"`
+	NotDecided  []string  `json:"not_decided"`
+	Assumptions []string  `json:"assumptions"`
+	Standins    []Standin `json:"bounded_standins"`
+	Mutants     []string  `json:"mutants"`
 }
 
 type Standin struct {
@@ -40,21 +40,21 @@ type Finding struct {
 }
 
 type ReplayFile struct {
-	Property   string            `json:"property"`
-	Obligation string            `json:"obligation"`
-	Kind       string            `json:"kind"`
-	Function   string            `json:"function"`
-	Package    string            `json:"package"`
-	Pos        string            `json:"pos"`
-	Desc       string            `json:"desc"`
-	Verdict    string            `json:"solver_verdict"`
-	Solver     string            `json:"solver"`
-	Model      map[string]string `json:"model,omitempty"`
-	SolverOut  string            `json:"solver_output,omitempty"`
-	Query      string            `json:"query,omitempty"`
-	Replay     *ReplayOutcome    `json:"replay,omitempty"`
-	FailingInputFound bool       `json:"failing_input_found"`
-	Note       string            `json:"note,omitempty"`
+	Property          string            `json:"property"`
+	Obligation        string            `json:"obligation"`
+	Kind              string            `json:"kind"`
+	Function          string            `json:"function"`
+	Package           string            `json:"package"`
+	Pos               string            `json:"pos"`
+	Desc              string            `json:"desc"`
+	Verdict           string            `json:"solver_verdict"`
+	Solver            string            `json:"solver"`
+	Model             map[string]string `json:"model,omitempty"`
+	SolverOut         string            `json:"solver_output,omitempty"`
+	Query             string            `json:"query,omitempty"`
+	Replay            *ReplayOutcome    `json:"replay,omitempty"`
+	FailingInputFound bool              `json:"failing_input_found"`
+	Note              string            `json:"note,omitempty"`
 }
 
 const verifDir = "/verif"
@@ -309,21 +309,21 @@ func cmdCheck(args []string) {
 		"violations":  len(violations),
 		"assumptions": assumptions,
 		"coverage": map[string]any{
-			"obligations":  total,
-			"discharged":   discharged + len(knownHit)*0,
-			"checker_cmd":  fmt.Sprintf("/verif/check %s %s  (govc: VCs over go/ssa NaiveForm of /repo's working tree; z3 4.8.12 / z3 5.1.0 / cvc5 1.0.x portfolio)", *prop, *tier),
-			"trusted_base": []string{"go/packages + go/types + go/ssa (x/tools v0.29.0)", "the VC generator /verif/govc (unverified; guarded by the must-fail selftest corpus and vacuity covers)", "z3 4.8.12, z3 5.1.0, cvc5 1.0.x (thorough: every obligation needs unsat from two solvers)", "assumed contracts in /verif/extern/*.spec (listed under assumptions when used)"},
-			"samples":      samples,
+			"obligations":              total,
+			"discharged":               discharged + len(knownHit)*0,
+			"checker_cmd":              fmt.Sprintf("/verif/check %s %s  (govc: VCs over go/ssa NaiveForm of /repo's working tree; z3 4.8.12 / z3 5.1.0 / cvc5 1.0.x portfolio)", *prop, *tier),
+			"trusted_base":             []string{"go/packages + go/types + go/ssa (x/tools v0.29.0)", "the VC generator /verif/govc (unverified; guarded by the must-fail selftest corpus and vacuity covers)", "z3 4.8.12, z3 5.1.0, cvc5 1.0.x (thorough: every obligation needs unsat from two solvers)", "assumed contracts in /verif/extern/*.spec (listed under assumptions when used)"},
+			"samples":                  samples,
 			"functions_under_contract": funcs,
-			"by_solver":    bySolver,
-			"solver_ms_total": solverMs,
-			"known_findings_hit": knownHit,
-			"not_decided":  pc.NotDecided,
-			"bounded_standins": standinRes,
-			"vacuity":      vac,
-			"out_of_subset": outOfSubset,
-			"contract_source": cs,
-			"explanation":  "every obligation is a verification condition generated from the current source of /repo and discharged (unsat of path condition and negated goal) by an SMT solver; integers are modelled exactly (mathematical Int with Go wrap-around), memory as typed heaps",
+			"by_solver":                bySolver,
+			"solver_ms_total":          solverMs,
+			"known_findings_hit":       knownHit,
+			"not_decided":              pc.NotDecided,
+			"bounded_standins":         standinRes,
+			"vacuity":                  vac,
+			"out_of_subset":            outOfSubset,
+			"contract_source":          cs,
+			"explanation":              "every obligation is a verification condition generated from the current source of /repo and discharged (unsat of path condition and negated goal) by an SMT solver; integers are modelled exactly (mathematical Int with Go wrap-around), memory as typed heaps",
 		},
 	}
 	os.MkdirAll(filepath.Join(outDir, "evidence"), 0o755)
